@@ -12,7 +12,7 @@ import itertools
 import math
 import os
 import posixpath
-from io import BytesIO, StringIO
+from io import BytesIO
 from textwrap import indent
 from typing import Any, Dict, List, MutableMapping, Optional, Tuple, Union, cast
 
@@ -2812,18 +2812,21 @@ class DesignSpaceDocument(LogMixin, AsDictMixin):
 
     def tostring(self, encoding=None):
         """Returns the designspace as a string. Default encoding ``utf-8``."""
-        if encoding is str or (encoding is not None and encoding.lower() == "unicode"):
-            f = StringIO()
+        asText = encoding is str or (
+            encoding is not None and encoding.lower() == "unicode"
+        )
+        if asText:
+            # lxml's ElementTree.write() does not know the "unicode" pseudo
+            # encoding: write UTF-8 without a declaration and decode it
             xml_declaration = False
         elif encoding is None or encoding == "utf-8":
-            f = BytesIO()
-            encoding = "UTF-8"
             xml_declaration = True
         else:
             raise ValueError("unsupported encoding: '%s'" % encoding)
+        f = BytesIO()
         writer = self.writerClass(f, self)
-        writer.write(encoding=encoding, xml_declaration=xml_declaration)
-        return f.getvalue()
+        writer.write(encoding="UTF-8", xml_declaration=xml_declaration)
+        return f.getvalue().decode("utf-8") if asText else f.getvalue()
 
     def read(self, path):
         """Read a designspace file from ``path`` and populates the fields of
